@@ -17,7 +17,9 @@ DRAWS = st.lists(
 
 WIDTHS = [1, 1, 2, 2, 3, 4, 8, 16]
 
-LINEAR_CFG = st.builds(lambda w, d, f: {"kind": "linear", "width": w, "depth": d, **({"factory": True} if f else {})}, st.sampled_from(WIDTHS), st.integers(1, 4), st.sampled_from([False, False, True]))
+# depths: the usual few rows, and occasionally more rows than a 64-bit word has bits
+DEPTHS = st.one_of(st.integers(1, 4), st.integers(1, 4), st.integers(1, 4), st.integers(1, 4), st.integers(1, 4), st.sampled_from([65, 66, 130]))
+LINEAR_CFG = st.builds(lambda w, d, f: {"kind": "linear", "width": w, "depth": d, **({"factory": True} if f else {})}, st.sampled_from(WIDTHS), DEPTHS, st.sampled_from([False, False, True]))
 _AT = st.sampled_from([None, None, "u64", "factory"])
 LOG8_CFG = st.builds(
     lambda w, d, mc, nr, at: {"kind": "log8", "width": w, "depth": d, "max_count": mc, "num_reserved": nr, **({"factory": True} if at == "factory" else {"argtype": at} if at else {})},
